@@ -264,36 +264,13 @@ func DefLambda(defName string, s *Scope, args List, extraVars ...string) (lam *L
 }
 
 // Compile forms while in the current package instead of waiting until
-// invoked.
+// invoked. Only lists, function calls, are compiled. A symbol as a form is a
+// variable reference and like the symbols inside of a list it is looked up
+// when the form is evaluated.
 func (lam *Lambda) Compile(s *Scope, extraVars ...string) {
 	for i, f := range lam.Forms {
-	expand:
-		switch tf := f.(type) {
-		case Symbol:
-			if 0 < len(tf) && tf[0] == ':' {
-				// A keyword evaluates to itself, it is not a variable.
-				break
-			}
-			if s.has(string(tf)) || lam.Doc.getArg(string(tf)) != nil {
-				break
-			}
-			for _, vn := range extraVars {
-				if vn == string(tf) {
-					break expand
-				}
-			}
-			vv := CurrentPackage.GetVarVal(string(tf))
-			if vv == nil {
-				CurrentPackage.mu.Lock()
-				if vv = CurrentPackage.vars[string(tf)]; vv == nil {
-					vv = newUnboundVar(string(tf))
-					CurrentPackage.vars[string(tf)] = vv
-				}
-				CurrentPackage.mu.Unlock()
-			}
-			lam.Forms[i] = vv
-		case List:
-			lam.Forms[i] = CompileList(tf)
+		if list, ok := f.(List); ok {
+			lam.Forms[i] = CompileList(list)
 		}
 	}
 }
